@@ -217,7 +217,8 @@ class MCSimulationFixedTimes(MCSimulation, SimulationFixedTimes):
         for k, sliceStates in enumerate(values):
             if sliceStates.shape[0]:
                 definitive_values[k] = sliceStates[-1]
-        return definitive_values
+        # running sum over the product dates (each slice is cumulated from 0)
+        return np.cumsum(definitive_values)
 
     def simulate_jumps(self):
         mc = self.simulate_markov_chain()
